@@ -1038,8 +1038,9 @@ class TensorDict(TensorDictBase):
             names = None
             if self._has_names():
                 names = copy(self.names)
-                if keepdim:
-                    # every batch dim is kept (with size 1 where reduced)
+                if keepdim or batch_size is not None:
+                    # every batch dim is kept (with size 1 where reduced, or as is for
+                    # shape-preserving ops such as cummin / cummax)
                     pass
                 elif isinstance(dim, tuple):
                     names = [name for i, name in enumerate(names) if i not in dim]
